@@ -42,6 +42,7 @@ func (q *clientSegmentQueue) waitUntilSizeIsBelow(ctx context.Context, n int) bo
 
 	for len(q.queue) > n {
 		q.mutex.Unlock()
+		verifHook("queue:waitBelow:unlocked")
 
 		select {
 		case <-q.didPull:
@@ -62,6 +63,7 @@ func (q *clientSegmentQueue) pull(ctx context.Context) (*segmentData, bool) {
 	for len(q.queue) == 0 {
 		didPush := q.didPush
 		q.mutex.Unlock()
+		verifHook("queue:pull:unlocked")
 
 		select {
 		case <-didPush:
